@@ -8,6 +8,7 @@ def step (_ : Unit) (toks : List String) : Unit × String :=
   match toks with
   | "hash" :: _ :: _ => ((), "ctxzero")
   | "hmac" :: _ :: _ :: _ => ((), "ctxzero")
+  | ["hashbig", _, n] => ((), if n.toNat?.getD (2^32) ≤ 2^31 then "ctxzero" else "skip")
   | ["aesmode", m] => ((), "aesmode " ++ m)
   | ["hooktest", m] => ((), "hooktest " ++ m)
   | ["aeskey", _] => ((), "freed zero")
